@@ -614,9 +614,23 @@ def _while_variant(w, fi, cfg, st: ast.While):
         return False, 'shrinking-difference', 'padding loop does not strictly grow the shorter operand'
     # (c) bounded counter: first statement is a script-error guard  c < LIMIT, c += k>0 on every back edge
     body = st.body
+    g_cls, g_cond = None, None
     if body and isinstance(body[0], ast.Expr) and isinstance(body[0].value, ast.Call):
-        cls = cfg.exc.guard_class(fi.module.name, body[0].value)
-        cond = body[0].value.args[0] if body[0].value.args else None
+        g_cls = cfg.exc.guard_class(fi.module.name, body[0].value)
+        g_cond = body[0].value.args[0] if body[0].value.args else None
+    elif body and isinstance(body[0], ast.If) and not body[0].orelse and len(body[0].body) == 1 and \
+            isinstance(body[0].body[0], ast.Raise):
+        exc = body[0].body[0].exc
+        g_cls = ast.unparse(exc.func if isinstance(exc, ast.Call) else exc) if exc is not None else None
+        t = body[0].test
+        if isinstance(t, ast.UnaryOp) and isinstance(t.op, ast.Not):
+            g_cond = t.operand
+        elif isinstance(t, ast.Compare) and len(t.ops) == 1 and isinstance(t.ops[0], (ast.GtE, ast.Gt)):
+            inv = ast.Lt() if isinstance(t.ops[0], ast.GtE) else ast.LtE()
+            g_cond = ast.Compare(left=t.left, ops=[inv], comparators=t.comparators)
+    if g_cls is not None and g_cond is not None:
+        cls = g_cls
+        cond = g_cond
         if cls and isinstance(cond, ast.Compare) and len(cond.ops) == 1 and isinstance(cond.ops[0], (ast.Lt, ast.LtE)) \
                 and isinstance(cond.left, ast.Name):
             c = cond.left.id
